@@ -47,6 +47,10 @@ def note_c16(ctx, fam, c16, replay):
     stash = getattr(ctx, "c16_stash", None)
     if stash is not None and c16:
         stash.append((fam, c16, replay))
+    items = getattr(ctx, "c11_items", None)
+    if items is not None and c16 and "stage_req" in c16:
+        # C11 (static part): the request / response maps as the stages saw them (VERIF_STAGE_DUMP)
+        items.append((fam, c16, replay))
 
 
 def unsafe_query(q):
